@@ -14,6 +14,8 @@ mod ops;
 mod up;
 mod ex;
 mod abi;
+mod its;
+mod itsgen;
 
 use common::*;
 use std::io::Write;
@@ -51,6 +53,11 @@ impl World for abi::AbiWorld {
         abi::AbiWorld::exec(self, toks)
     }
 }
+impl World for its::ItsWorld {
+    fn exec(&mut self, toks: &[&str]) -> (String, String) {
+        its::ItsWorld::exec(self, toks)
+    }
+}
 impl World for gw::GwWorld {
     fn exec(&mut self, toks: &[&str]) -> (String, String) {
         gw::GwWorld::exec(self, toks)
@@ -66,6 +73,7 @@ pub fn new_world(cluster: &str) -> Box<dyn World> {
         "up" => Box::new(up::UpWorld::new()),
         "ex" => Box::new(ex::ExWorld::new()),
         "abi" => Box::new(abi::AbiWorld::new()),
+        "its" => Box::new(its::ItsWorld::new()),
         other => panic!("unknown cluster {other}"),
     }
 }
@@ -130,6 +138,10 @@ fn main() {
                 "C15" => up::gen_c15(&mut run, seed, thorough),
                 "C16" => ex::gen_c16(&mut run, seed, thorough),
                 "C10" => abi::gen_c10(&mut run, seed, thorough),
+                "C04" => itsgen::gen_c04(&mut run, seed, thorough),
+                "C05" => itsgen::gen_c05(&mut run, seed, thorough),
+                "C11" => itsgen::gen_c11(&mut run, seed, thorough),
+                "C18" => itsgen::gen_c18(&mut run, seed, thorough),
                 other => {
                     eprintln!("no generator for {other}");
                     std::process::exit(2);
